@@ -55,7 +55,45 @@ fn main() {
                     Err(e) => *reasons.entry(e).or_insert(0) += 1,
                 }
             }
-            println!("ok {} rejected {:?}", ok, reasons);
+            println!("setup_position: ok {} rejected {:?}", ok, reasons);
+            // the planted generators: acceptance rate and how often the planted feature is really there
+            let strat = proptest::collection::vec(proptest::prelude::any::<u16>(), 160);
+            let (mut n_box, mut box_tags): (u32, std::collections::BTreeMap<String, u32>) = (0, Default::default());
+            let (mut n_near, mut near_term) = (0u32, 0u32);
+            let (mut n_disc, mut disc_check, mut disc_pin, mut disc_ep_legal) = (0u32, 0u32, 0u32, 0u32);
+            for _ in 0..20000 {
+                let tape = strat.new_tree(&mut runner).unwrap().current();
+                if let Some((p, tag)) = gen::plant_boxed(&mut gen::Tape::new(&tape)) {
+                    n_box += 1;
+                    *box_tags.entry(format!("{} / {} legal moves", tag, p.legal_moves().len().min(3))).or_insert(0) += 1;
+                }
+                if let Some(p) = gen::plant_ep_near_king(&mut gen::Tape::new(&tape)) {
+                    n_near += 1;
+                    if p.legal_moves().iter().any(|m| p.is_ep_capture(*m) && p.apply(*m).legal_moves().is_empty()) {
+                        near_term += 1;
+                    }
+                }
+                if let Some(p) = gen::plant_ep_discovery(&mut gen::Tape::new(&tape)) {
+                    n_disc += 1;
+                    for m in p.legal_moves() {
+                        if p.is_ep_capture(m) {
+                            disc_ep_legal += 1;
+                            let n = p.apply(m);
+                            // check given by a piece other than the capturing pawn = discovered
+                            if n.checkers().iter().any(|s| *s != m.to) {
+                                disc_check += 1;
+                            }
+                            if !n.pinned().is_empty() {
+                                disc_pin += 1;
+                            }
+                            break;
+                        }
+                    }
+                }
+            }
+            println!("plant_boxed: accepted {} of 20000; {:?}", n_box, box_tags);
+            println!("plant_ep_near_king: accepted {} of 20000; en-passant capture ends the game in {}", n_near, near_term);
+            println!("plant_ep_discovery: accepted {} of 20000; en-passant capture legal in {}, discovers a check in {}, leaves a pinned piece in {}", n_disc, disc_ep_legal, disc_check, disc_pin);
             std::process::exit(0);
         }
         "selftest" => {
